@@ -387,8 +387,86 @@ Lemma session_prefix_free_lemma : forall b pre pre' d,
   last (session b (pre ++ [d])) (BLErr ErrIsZero) = last (session b (pre' ++ [d])) (BLErr ErrIsZero).
 Proof. intros. unfold session. rewrite !map_app. cbn [map]. rewrite !last_last. reflexivity. Qed.
 
+(* ---------- frame: only size and cycle time of a message matter ---------- *)
+Definition same_core (m m' : msg) : Prop := m_size m = m_size m' /\ m_cycle m = m_cycle m'.
+Definition figures (e : entry) : Q * Q := (e_bps e, e_pct e).
+
+Lemma bps_core : forall typ def m m', same_core m m' -> bps typ def m = bps typ def m'.
+Proof. intros typ def m m' [Hs Hc]. unfold bps. rewrite Hs, Hc. reflexivity. Qed.
+
+Lemma loads_core : forall typ def l l', Forall2 same_core l l' ->
+  map figures (loads typ def l) = map figures (loads typ def l').
+Proof.
+  intros typ def l l' H. induction H as [|m m' l l' Hm _ IH]; [reflexivity|].
+  cbn [loads map figures e_bps e_pct]. rewrite (bps_core typ def m m' Hm). f_equal. exact IH.
+Qed.
+
+Lemma total_figures : forall es es' a, map figures es = map figures es' ->
+  fold_left (fun t e => t + e_bps e) es a = fold_left (fun t e => t + e_bps e) es' a.
+Proof.
+  induction es as [|e r IH]; intros es' a H; destruct es' as [|e' r']; try discriminate; [reflexivity|].
+  cbn [map figures] in H. injection H as Hb Hp Hr. cbn [fold_left]. rewrite Hb. apply IH. exact Hr.
+Qed.
+
+Lemma with_pct_figures : forall t es es', map figures es = map figures es' ->
+  map figures (with_pct t es) = map figures (with_pct t es').
+Proof.
+  induction es as [|e r IH]; intros es' H; destruct es' as [|e' r']; try discriminate; [reflexivity|].
+  cbn [map figures] in H. injection H as Hb Hp Hr.
+  cbn [with_pct map figures e_bps e_pct]. rewrite Hb. f_equal. apply IH. exact Hr.
+Qed.
+
+Lemma insert_figures : forall e e' l l', figures e = figures e' -> map figures l = map figures l' ->
+  map figures (insert_desc e l) = map figures (insert_desc e' l').
+Proof.
+  intros e e' l. induction l as [|x r IH]; intros l' He Hl; destruct l' as [|x' r']; try discriminate.
+  - cbn [insert_desc map]. rewrite He. reflexivity.
+  - cbn [map] in Hl.
+    assert (Hx : figures x = figures x') by congruence.
+    assert (Hr : map figures r = map figures r') by congruence.
+    cbn [insert_desc].
+    assert (Hbe : e_bps e = e_bps e') by (unfold figures in He; congruence).
+    assert (Hbx : e_bps x = e_bps x') by (unfold figures in Hx; congruence).
+    replace (Qle_bool (e_bps e) (e_bps x)) with (Qle_bool (e_bps e') (e_bps x')) by (rewrite Hbe, Hbx; reflexivity).
+    destruct (Qle_bool (e_bps e') (e_bps x')).
+    + cbn [map]. rewrite Hx. f_equal. apply IH; assumption.
+    + cbn [map]. rewrite He, Hx, Hr. reflexivity.
+Qed.
+
+Lemma sort_figures : forall l l', map figures l = map figures l' ->
+  map figures (sort_desc l) = map figures (sort_desc l').
+Proof.
+  induction l as [|x r IH]; intros l' H; destruct l' as [|x' r']; try discriminate; [reflexivity|].
+  cbn [map] in H.
+  assert (Hx : figures x = figures x') by congruence.
+  assert (Hr : map figures r = map figures r') by congruence.
+  cbn [sort_desc fold_right].
+  apply insert_figures; [exact Hx | apply IH; exact Hr].
+Qed.
+
+(* two buses whose messages agree, position by position, in size and cycle time (and differ
+   arbitrarily in delay time, start delay, priority, send type, static CAN-ID, receivers, signals
+   and key) get the same load and the same list of (rate, share) figures, for every default *)
+Lemma load_ignores_delay_lemma : forall b b' def,
+  b_typ b' = b_typ b -> b_baud b' = b_baud b -> Forall2 same_core (bus_msgs b) (bus_msgs b') ->
+  match calculate_bus_load b def, calculate_bus_load b' def with
+  | BLOk l es, BLOk l' es' => l = l' /\ map figures es = map figures es'
+  | BLErr e, BLErr e' => e = e'
+  | _, _ => False
+  end.
+Proof.
+  intros b b' def Ht Hb Hm. unfold calculate_bus_load. rewrite Hb, Ht.
+  destruct (def <? 0)%Z; [reflexivity|]. destruct (def =? 0)%Z; [reflexivity|].
+  destruct (b_baud b =? 0)%Z; [split; reflexivity|].
+  pose proof (loads_core (b_typ b) def _ _ Hm) as Hl.
+  assert (Htot : total_bps (loads (b_typ b) def (bus_msgs b)) = total_bps (loads (b_typ b) def (bus_msgs b')))
+    by (apply total_figures; exact Hl).
+  rewrite Htot. split; [reflexivity|].
+  apply sort_figures. apply with_pct_figures. exact Hl.
+Qed.
+
 (* ---------- hypotheses are satisfiable / the numbers of the test-suite's fixture ---------- *)
-Definition ex_bus : bus := mkBus 0 250000 [[mkMsg 0 8 100; mkMsg 1 8 10]; []; [mkMsg 2 0 0]].
+Definition ex_bus : bus := mkBus 0 250000 [[plain 0 8 100; plain 1 8 10]; []; [plain 2 0 0]].
 
 Example valid_bus_witness : valid_bus ex_bus /\ bus_msgs ex_bus <> [].
 Proof.
@@ -405,14 +483,14 @@ Example ex_bus_result :
 Proof. vm_compute. repeat split; reflexivity. Qed.
 
 (* the monotonicity hypotheses are satisfiable, and the increase can be strict *)
-Definition ex_bus_bigger : bus := mkBus 0 250000 [[mkMsg 0 8 100; mkMsg 1 8 10]; []; [mkMsg 2 3 0]].
-Definition ex_bus_faster : bus := mkBus 0 250000 [[mkMsg 0 8 100; mkMsg 1 8 10]; []; [mkMsg 2 0 499]].
+Definition ex_bus_bigger : bus := mkBus 0 250000 [[plain 0 8 100; plain 1 8 10]; []; [plain 2 3 0]].
+Definition ex_bus_faster : bus := mkBus 0 250000 [[plain 0 8 100; plain 1 8 10]; []; [plain 2 0 499]].
 
 Example monotone_witness :
-  bus_msgs ex_bus = [mkMsg 0 8 100; mkMsg 1 8 10] ++ mkMsg 2 0 0 :: []
-  /\ bus_msgs ex_bus_bigger = [mkMsg 0 8 100; mkMsg 1 8 10] ++ mkMsg 2 3 0 :: []
-  /\ bus_msgs ex_bus_faster = [mkMsg 0 8 100; mkMsg 1 8 10] ++ mkMsg 2 0 499 :: []
-  /\ valid_msg (mkMsg 2 0 0)
+  bus_msgs ex_bus = [plain 0 8 100; plain 1 8 10] ++ plain 2 0 0 :: []
+  /\ bus_msgs ex_bus_bigger = [plain 0 8 100; plain 1 8 10] ++ plain 2 3 0 :: []
+  /\ bus_msgs ex_bus_faster = [plain 0 8 100; plain 1 8 10] ++ plain 2 0 499 :: []
+  /\ valid_msg (plain 2 0 0)
   /\ (0 < cycle_or_default 499 500 <= cycle_or_default 0 500)%Z
   /\ match calculate_bus_load ex_bus 500, calculate_bus_load ex_bus_bigger 500, calculate_bus_load ex_bus_faster 500 with
      | BLOk l _, BLOk l1 _, BLOk l2 _ => l < l1 /\ l < l2
@@ -425,16 +503,16 @@ Qed.
 (* ---------- outside the hypotheses ---------- *)
 (* negative baud rate (Bus.SetBaudrate takes an int and does not refuse it): the load is negative
    and enlarging a message / shortening its cycle DEcreases it *)
-Definition neg_bus : bus := mkBus 0 (-250000) [[mkMsg 0 8 100; mkMsg 1 8 10]; []; [mkMsg 2 0 0]].
-Definition neg_bus_bigger : bus := mkBus 0 (-250000) [[mkMsg 0 8 100; mkMsg 1 8 10]; []; [mkMsg 2 3 0]].
-Definition neg_bus_faster : bus := mkBus 0 (-250000) [[mkMsg 0 8 100; mkMsg 1 8 10]; []; [mkMsg 2 0 499]].
+Definition neg_bus : bus := mkBus 0 (-250000) [[plain 0 8 100; plain 1 8 10]; []; [plain 2 0 0]].
+Definition neg_bus_bigger : bus := mkBus 0 (-250000) [[plain 0 8 100; plain 1 8 10]; []; [plain 2 3 0]].
+Definition neg_bus_faster : bus := mkBus 0 (-250000) [[plain 0 8 100; plain 1 8 10]; []; [plain 2 0 499]].
 
 Lemma monotone_negative_baud_refuted_lemma :
   exists b b1 b2 def load es load1 es1 load2 es2,
     (0 < def)%Z /\ b_baud b <> 0%Z /\ valid_bus b /\ valid_bus b1 /\ valid_bus b2
-    /\ bus_msgs b = [mkMsg 0 8 100; mkMsg 1 8 10] ++ mkMsg 2 0 0 :: []
-    /\ bus_msgs b1 = [mkMsg 0 8 100; mkMsg 1 8 10] ++ mkMsg 2 3 0 :: []     (* enlarged *)
-    /\ bus_msgs b2 = [mkMsg 0 8 100; mkMsg 1 8 10] ++ mkMsg 2 0 499 :: []   (* cycle shortened from the default 500 *)
+    /\ bus_msgs b = [plain 0 8 100; plain 1 8 10] ++ plain 2 0 0 :: []
+    /\ bus_msgs b1 = [plain 0 8 100; plain 1 8 10] ++ plain 2 3 0 :: []     (* enlarged *)
+    /\ bus_msgs b2 = [plain 0 8 100; plain 1 8 10] ++ plain 2 0 499 :: []   (* cycle shortened from the default 500 *)
     /\ calculate_bus_load b def = BLOk load es
     /\ calculate_bus_load b1 def = BLOk load1 es1
     /\ calculate_bus_load b2 def = BLOk load2 es2
@@ -460,7 +538,7 @@ Proof. intros b b' def Hd H H'. split; apply zero_baud_lemma; assumption. Qed.
 (* a bus of an undefined type value (the library defines BusTypeCAN2A = 0 only, Bus.SetType takes
    any int) whose only message is empty: every rate is 0, the total is 0, the shares do not sum to
    100 (the model's x / 0 = 0 gives 0; the Go code gives NaN) *)
-Definition odd_bus : bus := mkBus 1 500000 [[mkMsg 0 0 10]].
+Definition odd_bus : bus := mkBus 1 500000 [[plain 0 0 10]].
 
 Lemma shares_unknown_type_refuted_lemma :
   exists b def load es,
